@@ -293,6 +293,21 @@ func genC03(tier, out string, sum *Summary) {
 			}
 		}
 	}
+	// every start/stop (and a few steps) around the ends of short ASCII strings, mixed-width strings and arrays
+	for _, tgt := range []string{"'hello'", "'h'", "''", "'héllo€'", "`[1,2,3,4,5]`", "`[]`", "@"} {
+		for a := -7; a <= 7; a++ {
+			for b := -7; b <= 7; b++ {
+				quiet(fmt.Sprintf("%s[%d:%d]", tgt, a, b), "hello", "small-slices")
+				if (a+b)%3 == 0 {
+					quiet(fmt.Sprintf("%s[%d:%d:%d]", tgt, a, b, 1+(a+7)%3), "hello", "small-slices")
+					quiet(fmt.Sprintf("%s[%d:%d:-%d]", tgt, a, b, 1+(b+7)%3), []any{"x", "y", "z"}, "small-slices")
+				}
+			}
+			quiet(fmt.Sprintf("%s[%d:]", tgt, a), "hello", "small-slices")
+			quiet(fmt.Sprintf("%s[:%d]", tgt, a), "hello", "small-slices")
+			quiet(fmt.Sprintf("%s[%d]", tgt, a), []any{"x", "y"}, "small-slices")
+		}
+	}
 	// every combination of two constructs on hostile values, and the spellings the canonical printer never produces
 	for _, sc := range smallScope(ssCfg{funcs: true, lets: true, errs: true, bools: true}, 1, 3000) {
 		text := unparse(sc.e)
